@@ -42,6 +42,10 @@ func init() {
 		runs = append(runs, keyedRuns(rc, "num=4000", "num=150000")...)
 		// exhaustive branching ++ histories over dense zero-based strings, byte arrays and arrays
 		runs = append(runs, &TLCRun{Module: "Keyed", Cfg: tierPick(rc.Tier, "Keyed_branchq.cfg", "Keyed_brancht.cfg"), Timeout: 40 * time.Minute})
+		// join / nest / unnest chains whose operands are earlier results
+		runs = append(runs, &TLCRun{Module: "Relational", Cfg: "Relational_chain3.cfg", Simulate: tierPick(rc.Tier, "num=3000", "num=100000"), Depth: 7, Seed: rc.Seed + 5, Workers: 1})
+		// fork histories: P = A <&> B, X = P <&> C, Y = P <&> D over all one-row relations on two-attribute headings
+		runs = append(runs, &TLCRun{Module: "Relational", Cfg: tierPick(rc.Tier, "Relational_forkq.cfg", "Relational_forkt.cfg")})
 		runTLCToPool(rep, rc, runs, &Pool{Handler: "multi-c03"})
 		return rep.Finish()
 	}
